@@ -195,6 +195,32 @@ def run(prog, check):
             (attr_chain(src.value) or [''])[0] == copy_name and (attr_chain(src.value) or [''])[-1] == 'TimeSeries'
         check.ob('C15.R4', '%s::point(%d)-from-copy-series' % (ss.key, i), ok, '%s:%d' % (ss.module.rel, loop.lineno),
                  '`%s` = %s[%d]' % (nm, unparse(src), i), 'the copy is what was solved forward; the original still holds k=0 only')
+    # the two points enter the test through their difference and their own magnitudes only: any other combination of the two
+    # (a sum, a mean, a product) makes the verdict depend on something else than how far the series still moves
+    def points_in(e_):
+        out_ = set()
+        for x_ in ast.walk(e_):
+            if isinstance(x_, ast.Name) and x_.id in lastprev:
+                out_.add(lastprev[x_.id][0])
+            elif isinstance(x_, ast.Subscript) and isinstance(x_.slice, ast.UnaryOp) and isinstance(x_.slice.op, ast.USub) and \
+                    isinstance(x_.slice.operand, ast.Constant) and x_.slice.operand.value in (1, 2):
+                out_.add(-x_.slice.operand.value)
+        return out_
+    mixed = []
+    for x_ in ast.walk(loop):
+        if isinstance(x_, ast.BinOp) and not isinstance(x_.op, ast.Sub):
+            l_, r_ = points_in(x_.left), points_in(x_.right)
+            if (l_ and r_) and (l_ | r_) == {-1, -2} and not (l_ == r_ == {-1, -2}):
+                mixed.append(x_)
+            elif l_ == {-1} and r_ == {-2} or l_ == {-2} and r_ == {-1}:
+                mixed.append(x_)
+    # a quotient change / magnitude is the relative test itself: numerator mentions both points (the difference), denominator one
+    mixed = [m_ for m_ in mixed if not (isinstance(m_.op, ast.Div) and points_in(m_.left) == {-1, -2} and len(points_in(m_.right)) == 1)]
+    check.ob('C15.R4', '%s::points-combined-by-difference-only' % ss.key, not mixed,
+             '%s:%d' % (ss.module.rel, mixed[0].lineno if mixed else loop.lineno),
+             'the last two points enter the acceptance test as their difference and as single magnitudes' if not mixed else
+             'the acceptance test combines the last two points as `%s`: two points of opposite sign and equal size look like a series at rest' % unparse(mixed[0])[:80],
+             'an undamped oscillation around zero (x = -x(k-1))')
     # the absolute test and the relative test both use last/prev
     # ---- R2: write set through self ---------------------------------------------------------------
     nw = 0
